@@ -59,6 +59,7 @@ void h_codes (void)
       _Bool a_impl = 1, b_impl = 1;
       for (k = 0; k < n; k++) { if (name_of[k] == (R[a].repr == NAMES[1]) && code_of[k] != -1) a_impl = 0; if (name_of[k] == (R[b2].repr == NAMES[1]) && code_of[k] != -1) b_impl = 0; }
       if (a_impl) __CPROVER_assert (R[a].code >= 256, "a terminal never given an explicit code gets a free code from 256 upwards");
+      if (a_impl) __CPROVER_assert (R[a].code != R[b2].code, "the code chosen for a terminal without explicit code is FREE: no other terminal has it, explicit codes included");
       if (a_impl && b_impl) __CPROVER_assert (R[a].code != R[b2].code && ((R[a].num < R[b2].num) == (R[a].code < R[b2].code)), "implicit codes are distinct and increase in order of appearance");
       if (!a_impl)
         { /* a name whose declarations all carry the same explicit code keeps it */
